@@ -502,7 +502,7 @@ def stream_merge(ctx, corpus):
     rng = ctx.rng
     terms, descr = [], []
     cases = [c['case'] for c in corpus if c.get('stream') == 'merge']
-    for _ in range(ctx.n(140, 1500)):
+    for _ in range(ctx.n(220, 2500)):
         cases.append(gen_merge_case(rng, ctx.quick))
     for case in cases:
         try:
@@ -546,7 +546,7 @@ def gen_config(rng):
             leaves.append({'name': 'l%d' % i, 'sources': ['c%d' % cache_pool.pop()]})
         else:
             k = rng.choice([1, 1, 1, 2])
-            leaves.append({'name': 'l%d' % i, 'sources': ['s%d' % rng.randrange(nsrc) for _ in range(k)]})
+            leaves.append({'name': 'l%d' % i, 'sources': ['s%d' % j for j in rng.sample(range(nsrc), k)]})
     # grouping
     rng.shuffle(leaves)
     tree = []
@@ -1252,7 +1252,7 @@ def handle_tile(ctx, cfg, req, cb, resp, status, rec, up_map, up_fi, names, exte
                         out['tpx_descr'].append({'stream': 'app', 'case': {'config': cfg, 'requests': [req]}, 'pixel': [x, y],
                                                  'observed': list(got)})
     out['tile_terms'].append('(%s, %s, %s, %s, (%s), %s)' % (zlit(lname), cb_lit(cb, names), cont, inter, obs,
-                                                           blit(bool(up_map)) if not cache['store'] else 'true'))
+                                                           olit(None if (cache['store'] or status != 200) else bool(up_map), blit)))
     out['tile_descr'].append({'stream': 'app', 'case': {'config': cfg, 'requests': [req]}, 'status': status,
                               'observed': obs, 'upstream': up_map, 'relations(contains,intersects,dist)': rel})
 
@@ -1280,10 +1280,10 @@ FI_CHECK = ("fun c => let '(tree, ql, ls, cb, pin, obs) := c in "
             "| W_401, FI_401 | W_403, FI_403 => true "
             "| W_notqueryable, FI_notqueryable | W_unknown, FI_notqueryable => true "
             "| _, _ => false end")
-TILE_TYPE = 'Z * option cbres * list Z * list Z * tile_out * bool'
+TILE_TYPE = 'Z * option cbres * list Z * list Z * tile_out * option bool'
 TILE_CHECK = ("fun c => let '(n, cb, cont, inter, obs, loaded) := c in "
               "let m := tile_render n cb (inl cont) (inl inter) in "
-              "tile_out_eqb m obs && (Bool.eqb (tile_loads m) loaded || loaded)")
+              "tile_out_eqb m obs && match loaded with Some b => Bool.eqb (tile_loads m) b | None => true end")
 TFI_TYPE = 'Z * list Z * option cbres * list Z * fi_out'
 TFI_CHECK = ("fun c => let '(n, infos, cb, pin, obs) := c in fi_out_eqb (wmts_featureinfo n infos cb (inl pin)) obs")
 PX_TYPE = 'ropts * list lmeta * column * option bool * px * Z'
@@ -1305,8 +1305,8 @@ def stream_app(ctx, corpus):
     for c in corpus:
         if c.get('stream') == 'app':
             run_app_config(ctx, c['case']['config'], c['case']['requests'], out)
-    nconf = ctx.n(14, 120)
-    nreq = ctx.n(22, 40)
+    nconf = ctx.n(22, 150)
+    nreq = ctx.n(24, 40)
     for _ in range(nconf):
         cfg = gen_config(rng)
         reqs = gen_requests(rng, cfg, nreq)
